@@ -1672,6 +1672,11 @@ def gen_sim(rng, tier, metrics=None, deterministic=False):
     test_size = rng.choice([0.2, 0.3, 0.5, 0.25])
     n_test = math.ceil(n * test_size)
     bs = rng.choice([0, 0, 1, rng.randint(1, max(1, n_test)), n_test, max(1, n_test // 2)])
+    if rng.random() < 0.3:
+        # rewards all above (or all below) zero: an arm that occurs on one side of the split only must not pick up the 0 of the
+        # placeholder statistics of the other side
+        sh = rng.choice([10.0, -10.0, 3.5])
+        rs = [r + sh if sh > 0 else -abs(r) + sh for r in rs]
     thompson = any(b["lp"][0] == "thompson" and b["lp"][1] is None for b in bandits)
     if thompson:
         rs = [float(int(abs(r)) % 2) for r in rs]
